@@ -159,6 +159,16 @@ prop('C19', 'other',
      '3 additions, 2 models x 3 devices, 3 referrers.',
      'path-forking symbolic execution of the real index/reference code + z3', 'DESIGN.md 3/C19')
 
+prop('C13', 'other',
+     'PARTIAL. Real andes.io.matpower.mpc2system executed under pysym on symbolic bus/gen/branch rows (System.add recorded): the '
+     'emitted devices carry MATPOWER semantics (p.u. by baseMVA, radians, r/x/b and Gs/Bs reproduced on the system base through the '
+     "device's own base, ratio 0 => tap 1, shift on every branch, status, bus type => slack/PV, non-zero demand/shunt of either sign "
+     '=> load/shunt); real system2mpc on stub systems with symbolic values: bus rows hold the sum of the in-service loads/shunts; '
+     'round trip mpc -> system -> mpc is the identity on supported columns.',
+     'NOT covered (not encodable): reading/writing xlsx, json, raw, dyr files (pandas, openpyxl, text->float, yaml mapping); PSS/E '
+     'record parsers; area/zone columns.',
+     'symbolic execution of the real format converters + z3', 'DESIGN.md 3/C13')
+
 ORDER = ['C%02d' % i for i in range(1, 21)]
 checks, na = [], []
 for pid in ORDER:
